@@ -127,8 +127,10 @@ def step (s : St) (p : Pid) : St × String :=
       "SET-EX session")
   | .reread =>
     match mine s.sess with
-    | none =>   -- gone (or replaced by a new login's) meanwhile: the refresh fails softly; a proxied request falls back to the session it read first
-      (setProc s p { x with pc := .unlock, status := if x.kind = .proxy then 200 else 401, served := if x.kind = .proxy then x.seen else none }, "GET session")
+    | none =>   -- gone meanwhile (ErrNotFound): the refresh fails softly and a proxied request falls back to the session it read first; replaced by a new login's
+                -- session (undecryptable with this cookie's key: ErrInvalid): the request goes on WITHOUT a token
+      (setProc s p { x with pc := .unlock, status := if x.kind = .proxy then 200 else 401,
+                            served := if x.kind = .proxy && s.sess.isNone then x.seen else none }, "GET session")
     | some v =>
       if v.fresh then (setProc s p { x with pc := .unlock, status := 200, served := if x.kind = .proxy then some v.gen else none }, "GET session")      -- already refreshed by someone else
       else (setProc s p { x with pc := .idp, rt := v.gen }, "GET session")
